@@ -15,7 +15,11 @@
 /* snprintf/vsnprintf: writes at most n bytes into str, NUL terminates when n >= 1,
 ** returns a non-negative count (the length the full output would have had). */
 int verif_snprintf (char *str, size_t n)
-{	if (n > 0)
+{
+#ifdef VERIF_SNPRINTF_RECORD
+	g_fmt_size = n ; g_fmt_dst = str ;	/* ghost: lets the strlen model of the unit find the terminator */
+#endif
+	if (n > 0)
 	{	__CPROVER_assert (__CPROVER_w_ok (str, n), "E1 snprintf: destination writable for n bytes") ;
 		__CPROVER_havoc_slice (str, n) ;
 		size_t k_nd ; size_t k = k_nd ;
